@@ -24,6 +24,7 @@ import http.client
 import json
 import threading
 import time
+import tokenize
 import urllib.error
 import urllib.parse
 import urllib.request
@@ -178,9 +179,14 @@ def _read_chunk(response):
     if ('Content-encoding' not in response.headers
             and hasattr(data, '_fp')
             and hasattr(data._fp, 'readinto')):
-        chunk = read_array(data._fp)
+        fp = data._fp
     else:
-        chunk = read_array(data)
+        fp = data
+    try:
+        chunk = read_array(fp)
+    except (ValueError, SyntaxError, tokenize.TokenError) as err:
+        # The object is all there but is not NPY data that we can decode (truncation is handled via retries)
+        raise BadChunk(f'Undecodable NPY data: {err}') from err
     # This shouldn't actually read any data, but will make requests aware that
     # we've consumed all the data and hence it can reuse the connection.
     response.content
